@@ -149,6 +149,7 @@ func (e *Enc) exec(in ssa.Instruction) {
 	case *ssa.Select:
 		e.execSelect(in)
 	case *ssa.Send:
+		e.sentClauses(in.X.Type(), e.val(in.X).T, true, in.Pos())
 		sa := []Val{e.val(in.Chan), e.val(in.X)}
 		e.atArgTypes = []types.Type{in.Chan.Type(), in.X.Type()}
 		e.applyAts("before send", "", in.Pos(), sa, nil)
@@ -958,4 +959,35 @@ func (e *Enc) stringToBytes(x Term) Term {
 func bigCmp(a, b string) int {
 	pa, pb := parseBig(a), parseBig(b)
 	return pa.Cmp(pb)
+}
+
+
+// sentClauses: the message-passing rule for `sent` clauses of a struct type T. A value of type *T that is sent on a
+// channel must satisfy them (obligation in the sender's state); a received *T is assumed to satisfy them (the message's
+// fields are written before the send and not afterwards: what every sender proved about the message).
+func (e *Enc) sentClauses(t types.Type, v Term, sending bool, pos token.Pos) {
+	pt, ok := t.Underlying().(*types.Pointer)
+	if !ok {
+		return
+	}
+	tc := e.W.typeContract(pt.Elem())
+	if tc == nil || len(tc.Sent) == 0 {
+		return
+	}
+	env := e.newSpecEnv(e.cur, e.init)
+	env.noLocals = true
+	env.vars["self"] = SV{T: v, Sort: "Int", GT: t}
+	if n, isN := stripTypeArgs(pt.Elem()).(*types.Named); isN && n.Obj().Pkg() != nil {
+		env.pkg = n.Obj().Pkg()
+	}
+	for i, cl := range tc.Sent {
+		g := env.evalBool(cl.Expr)
+		if sending {
+			o := e.oblige("sent", fmt.Sprintf("sent:%s.%d@%s", tc.Key, i, e.ordName("send")), g, pos, cl.Src)
+			o.setLabel(cl.Label)
+		} else {
+			e.used["channel hand-off: a received *"+tc.Key+" satisfies what every sender proved about it ("+cl.Src+")"] = true
+			e.assume(g)
+		}
+	}
 }
